@@ -64,6 +64,7 @@ func runCrashWorkload(r *rng, dir string) (*crashWorkload, error) {
 	w.refs = append(w.refs, cloneRef(ref))
 	nb := 0
 	rounds := 2 + r.intn(5)
+	wide := r.chance(1, 3)
 	for round := 0; round < rounds; round++ {
 		b, _ := c.NewBatch(0, 0)
 		cnt := 0
@@ -88,6 +89,18 @@ func runCrashWorkload(r *rng, dir string) (*crashWorkload, error) {
 		if cnt == 0 {
 			b.Set([]byte("k0"), []byte("z"))
 			ref["k0"] = []byte("z")
+		}
+		if wide && round == 0 {
+			// 45 child collections: every footer from now on spans three pages or more, so that a
+			// crash can leave its first and last page on disk without one in between (the framing
+			// checks of the footer scan pass, the JSON in between is not what was written)
+			for ci := 0; ci < 45; ci++ {
+				cb, err := b.NewChildCollectionBatch(fmt.Sprintf("wide-child-collection-%02d", ci), moss.BatchOptions{})
+				if err == nil {
+					cb.Set([]byte("k"), []byte("v"))
+					ref[fmt.Sprintf("wide-child-collection-%02d/k", ci)] = []byte("v")
+				}
+			}
 		}
 		if round > 0 && r.chance(1, 4) {
 			// the value of the empty key is the byte image of the footer an earlier round wrote
@@ -248,9 +261,30 @@ func buildImage(w *crashWorkload, p int, torn int, strategy int, r *rng) map[str
 				data = data[n:]
 			}
 		}
+		// strategy 5: everything reaches the disk except ONE page in the middle of the last pending
+		// write when that write spans three pages or more (a footer with its first and last page)
+		hole := -1
+		if strategy == 5 && len(f.pending) > 0 {
+			last := f.pending[len(f.pending)-1]
+			first := -1
+			cnt := 0
+			for bi, b := range blocks {
+				if b.off >= last.Off && b.off < last.Off+int64(len(last.Data)) {
+					if first < 0 {
+						first = bi
+					}
+					cnt++
+				}
+			}
+			if cnt >= 3 {
+				hole = first + 1 + r.intn(cnt-2)
+			}
+		}
 		for bi, b := range blocks {
 			keep := false
 			switch strategy {
+			case 5:
+				keep = bi != hole
 			case 0: // none
 			case 1: // all
 				keep = true
@@ -329,6 +363,14 @@ func famCrash(w *bufio.Writer, seed uint64, n int) error {
 			}
 			points = append(points, [2]int{p, 0})
 		}
+		var widePoints []int // crash points just after a write of a footer spanning >= 3 pages
+		for p := 1; p <= len(wl.ops); p++ {
+			op := wl.ops[p-1]
+			if op.Kind == "write" && len(op.Data) > 2*pageSz+64 && bytes.HasPrefix(op.Data, moss.StoreMagicBeg) &&
+				bytes.HasPrefix(op.Data[len(moss.StoreMagicBeg):], moss.StoreMagicBeg) {
+				widePoints = append(widePoints, p)
+			}
+		}
 		per := 16
 		if per > n-caseID {
 			per = n - caseID
@@ -342,6 +384,12 @@ func famCrash(w *bufio.Writer, seed uint64, n int) error {
 				}
 			}
 			strategy := r.intn(5)
+			if len(widePoints) > 0 && r.chance(1, 3) {
+				// right after a footer of three pages or more was written, before its sync: all of it
+				// on disk but one page in the middle
+				pt = [2]int{widePoints[r.intn(len(widePoints))], 0}
+				strategy = 5
+			}
 			img := buildImage(wl, pt[0], pt[1], strategy, r)
 			idir := mustMkdirTemp(workDir, "crashimg")
 			var names []string
@@ -390,26 +438,25 @@ func famCrash(w *bufio.Writer, seed uint64, n int) error {
 					ss.Close()
 				}
 				cs, _ := c.Snapshot()
-				got := map[string][]byte{}
-				it, err := cs.StartIterator(nil, nil, moss.IteratorOptions{})
-				if err == nil && it != nil {
-					for {
-						k, v, e := it.Current()
-						if e != nil {
-							break
-						}
-						got[string(k)] = cp(v)
-						if it.Next() != nil {
-							break
-						}
-					}
-					it.Close()
-				}
+				got, _ := snapContent(cs) // child collections flattened to "name/key", like the references
 				cs.Close()
 				for nn := nIssued; nn >= 0; nn-- {
 					if sameContent(got, wl.refs[nn]) {
 						prefix = nn
 						break
+					}
+				}
+				if prefix < 0 && os.Getenv("VERIF_DEBUG_CRASH") != "" {
+					fmt.Fprintf(os.Stderr, "case %d: content is no prefix: got %d keys, last ref %d keys\n", caseID, len(got), len(wl.refs[nIssued]))
+					for k, v := range got {
+						if w, ok := wl.refs[nIssued][k]; !ok || !bytes.Equal(w, v) {
+							fmt.Fprintf(os.Stderr, "   got %q=%.20q want %.20q (present %v)\n", k, v, w, ok)
+						}
+					}
+					for k := range wl.refs[nIssued] {
+						if _, ok := got[k]; !ok {
+							fmt.Fprintf(os.Stderr, "   missing %q\n", k)
+						}
 					}
 				}
 				c.Close()
